@@ -51,7 +51,13 @@ LineOK(rec) ==
           [] OTHER ->
                /\ (LibOf(t) # {} /\ LibInputOK(t)) \/ Reject(l, "BINDING library request does not match the plan")
                /\ LibOf(t) = {} \/
-                  IF Len(t.srcs) > 1 /\ Fails(t) THEN TRUE      \* "original bytes" of a failing bundle: not stated
+                  IF Len(t.srcs) > 1 /\ Fails(t)
+                  THEN \* (d) for a bundle: "the destination receives the original bytes" - every source's bytes, in order
+                       \* (joined with the separator as the library saw them, or plainly concatenated: both readings accepted);
+                       \* in particular not the bytes of one source alone when the bundle is written onto one of its sources
+                       LET got == IF t.dst = <<>> THEN obs.stdout ELSE IF DstEntry(k).k = "f" THEN DstEntry(k).c ELSE <<-1>>
+                       IN (got = Expect(t) \/ got = JoinBytes([j \in DOMAIN t.srcs |-> SrcBytes(t.srcs[j])], <<>>))
+                          \/ Reject(l, "failing bundle: destination does not hold the original bytes of all its sources")
                   ELSE IF t.dst = <<>>
                   THEN (obs.stdout = Expect(t)) \/ Reject(l, "stdout is not the library output")
                   ELSE (DstEntry(k).k = "f" /\ DstEntry(k).c = Expect(t))
